@@ -73,7 +73,7 @@ EnvChoices == {OkChoice} \cup
                THEN {[c |-> c, sh |-> IF c \in {"t4", "p5"} THEN s ELSE "none"] : c \in CLASSES \ {"mal", "refuse", "cstall", "cwfail", "xclose", "xnoop"}, s \in SHAPES}
                ELSE {})
 (* OP = "RawAuth": the smtp package used directly - NewClient, Auth (with its lazy EHLO), Quit *)
-DialFaults  == OP \notin {"Send", "Reset"}     \* in Send / Reset mode the dial is the clean prefix
+DialFaults  == OP \notin {"Send", "Reset", "Reset2"}     \* in Send / Reset mode the dial is the clean prefix
 DialChoices == IF DialFaults THEN EnvChoices ELSE {OkChoice}
 
 (* a malformed 334 challenge can only be injected into an AUTH exchange *)
@@ -224,12 +224,12 @@ Init ==
   /\ cl = [pc |-> IF cfg.redial THEN "preDial" ELSE "dial", m |-> 1, r |-> 1, ext |-> {}, dead |-> FALSE, rej |-> <<>>,
            dl |-> [i \in 1..N |-> FALSE], se |-> [i \in 1..N |-> NoErr], top |-> "",
            dotOpen |-> 0, tls |-> FALSE, armed |-> FALSE, authWin |-> FALSE, authOver |-> FALSE,
-           mech |-> "", astep |-> 0, lateOn |-> FALSE]
+           mech |-> "", astep |-> 0, lateOn |-> FALSE, round |-> 1]
   /\ env = [budget |-> BUDGET, nfault |-> 0, hist |-> <<>>, pred |-> <<>>]
   /\ obs = Observe(InitObs, [ev |-> "begin", cfg |-> cfg])
 
 Goto(p) == cl' = [cl EXCEPT !.pc = p]
-DialOp  == IF OP \in {"Send", "Reset"} THEN "Dial" ELSE OP
+DialOp  == IF OP \in {"Send", "Reset", "Reset2"} THEN "Dial" ELSE OP
 Raw     == OP = "RawAuth"
 
 (* a failed dial step: the transport is released before the error returns *)
@@ -464,7 +464,7 @@ DialOK ==
   /\ LET o1 == IF cl.armed THEN SetDl(obs, FALSE) ELSE obs IN      \* the dial deadline is cleared
      IF OP = "DialAndSend" THEN obs' = o1 /\ cl' = [cl EXCEPT !.pc = "sendBegin", !.armed = FALSE]
      ELSE /\ obs' = Observe(o1, [ev |-> "ret", op |-> DialOp, err |-> FALSE, elapsed |-> "within"])
-          /\ cl' = [cl EXCEPT !.pc = CASE OP = "Send" -> "sendBegin" [] OP = "Reset" -> "resetBegin" [] OTHER -> "quit",
+          /\ cl' = [cl EXCEPT !.pc = CASE OP = "Send" -> "sendBegin" [] OP \in {"Reset", "Reset2"} -> "resetBegin" [] OTHER -> "quit",
                                !.armed = FALSE]
 
 RetEv(op) ==
@@ -653,26 +653,32 @@ ResetBegin ==
 
 ResetRet(o, failed) == Observe(o, [ev |-> "ret", op |-> "Reset", err |-> failed, elapsed |-> "within"])
 
+(* OP = "Reset2": Reset is called a second time, whatever the first call returned *)
+AfterReset == IF OP = "Reset2" /\ cl.round = 1 THEN "resetBegin" ELSE "quit"
+NextRound  == IF OP = "Reset2" /\ cl.round = 1 THEN 2 ELSE cl.round
+
 ResetNoop ==
   /\ cl.pc = "resetNoop"
   /\ UNCHANGED cfg
-  /\ IF cfg.nonoop THEN Goto("resetRset") /\ UNCHANGED <<env, obs>>
-     ELSE \E ch \in EnvChoices :
+  /\ IF cl.dead        \* (second call) the connection is gone or silent: the check fails, nothing reaches the server
+     THEN obs' = ResetRet(obs, TRUE) /\ cl' = [cl EXCEPT !.pc = AfterReset, !.round = NextRound] /\ UNCHANGED env
+     ELSE IF cfg.nonoop THEN Goto("resetRset") /\ UNCHANGED <<env, obs>>
+     ELSE \E ch \in (IF cl.round = 2 THEN {OkChoice} ELSE EnvChoices) :   \* (the script names a command, not its occurrence: faults in the first call only)
        LET x == Plain("NOOP", 0, 0, <<>>, ch) IN
        /\ env' = x.env
        /\ IF Blocks(ch) THEN obs' = x.obs /\ Goto("blocked")
           ELSE IF ch.c = "ok" THEN obs' = (IF DEV_NoopBeforeDeadline THEN SetDl(x.obs, TRUE) ELSE x.obs)
                                    /\ cl' = [cl EXCEPT !.pc = "resetRset", !.armed = TRUE]
-          ELSE obs' = ResetRet(x.obs, TRUE) /\ cl' = [cl EXCEPT !.pc = "quit", !.dead = Lost(ch.c)]
+          ELSE obs' = ResetRet(x.obs, TRUE) /\ cl' = [cl EXCEPT !.pc = AfterReset, !.round = NextRound, !.dead = Lost(ch.c)]
 
 ResetRset ==
   /\ cl.pc = "resetRset"
   /\ UNCHANGED cfg
-  /\ \E ch \in EnvChoices :
+  /\ \E ch \in (IF cl.round = 2 THEN {OkChoice} ELSE EnvChoices) :   \* (the script names a command, not its occurrence: faults in the first call only)
        LET x == Plain("RSET", 0, 0, <<>>, ch) IN
        /\ env' = x.env
        /\ IF Blocks(ch) THEN obs' = x.obs /\ Goto("blocked")
-          ELSE obs' = ResetRet(x.obs, ch.c # "ok") /\ cl' = [cl EXCEPT !.pc = "quit", !.dead = Lost(ch.c)]
+          ELSE obs' = ResetRet(x.obs, ch.c # "ok") /\ cl' = [cl EXCEPT !.pc = AfterReset, !.round = NextRound, !.dead = Lost(ch.c)]
 
 NextMsg ==
   /\ cl.pc = "nextMsg" /\ cl' = [cl EXCEPT !.m = @ + 1, !.pc = "msgStart"]
